@@ -39,6 +39,14 @@ def generate(tier, rng):
             for w in widths_for(n):
                 tail = b"a" * n if mt in (2, 3) and n <= 300 else b"\x01\x02"
                 out.append("DP %s" % hexs(head(mt, n, w) + tail))
+    # byte and text strings of every length up to 1100 (block-wise renderers have seams at multiples of their block size),
+    # definite, as the chunk of an indefinite string, and nested in a map
+    for n in range(0, 1101):
+        bs = bytes((i * 37 + n) & 0xff for i in range(n))
+        out.append("DP %s" % hexs(head(2, n) + bs))
+        if n % 7 == 0:
+            out.append("DP %s" % hexs(b"\x5f" + head(2, n) + bs + b"\x41\x00\xff"))
+            out.append("DP %s" % hexs(b"\xa1\x01" + head(3, n) + b"a" * n))
     # strings whose content looks like notation
     for s in ['"', '""_', '"_', "'_", "''_", '_', "1e0", "h'00'", ", ", " !!! decoding error: x", "(_ ", "NaN", "-inf", "1.5e-7", "simple(1)", "<f32:1>", "%41"]:
         b = s.encode()
